@@ -243,11 +243,14 @@ func (p *party) Sign(ctx context.Context, msgHash []byte) ([]byte, error) {
 	var endWG sync.WaitGroup
 	endWG.Add(1)
 
+	startFailed := make(chan error, 1)
+
 	go func() {
 		defer endWG.Done()
 		err := party.Start()
 		if err != nil {
 			p.logger.Errorf("Failed signing: %v", err)
+			startFailed <- err
 		}
 	}()
 
@@ -257,6 +260,8 @@ func (p *party) Sign(ctx context.Context, msgHash []byte) ([]byte, error) {
 		select {
 		case <-ctx.Done():
 			return nil, fmt.Errorf("signing timed out: %w", ctx.Err())
+		case err := <-startFailed:
+			return nil, fmt.Errorf("failed signing: %w", err)
 		case sigOut := <-end:
 			if !bytes.Equal(sigOut.M, msgToSign.Bytes()) {
 				return nil, fmt.Errorf("message we requested to sign is %s but actual message signed is %s",
@@ -315,11 +320,14 @@ func (p *party) KeyGen(ctx context.Context) ([]byte, error) {
 	var endWG sync.WaitGroup
 	endWG.Add(1)
 
+	startFailed := make(chan error, 1)
+
 	go func() {
 		defer endWG.Done()
 		err := party.Start()
 		if err != nil {
 			p.logger.Errorf("Failed generating key: %v", err)
+			startFailed <- err
 		}
 	}()
 
@@ -329,6 +337,8 @@ func (p *party) KeyGen(ctx context.Context) ([]byte, error) {
 		select {
 		case <-ctx.Done():
 			return nil, fmt.Errorf("DKG timed out: %w", ctx.Err())
+		case err := <-startFailed:
+			return nil, fmt.Errorf("failed generating key: %w", err)
 		case dkgOut := <-end:
 			dkgRawOut, err := json.Marshal(*dkgOut)
 			if err != nil {
